@@ -366,6 +366,14 @@ inductive Op
   | modelsChanged (f : List ModelC → List ModelC)
   /-- read `machine.markup` -/
   | read
+  /-- a read-only observer (`get_graph()` in any variant incl. the region-of-interest rendering,
+  `get_triggers`, `get_transitions`, `may_<trigger>` …): neither object state, cache nor flag change — in
+  particular the diagram code must not write into the dicts of the cached markup it is handed -/
+  | observe
+  /-- the machine is replaced by `pickle.loads(pickle.dumps(machine))` / `copy.deepcopy(machine)`:
+  `__getstate__/__setstate__` carry object state, cached dict and flag over unchanged (the machine-level
+  part of the cache exists only there) -/
+  | restore
 
 def MM.new (c : Cfg) : MM := { cfg := c, cache := initMarkup c, dirty := true }
 
@@ -379,6 +387,8 @@ def MM.step (wl : WL) (m : MM) : Op → MM
   | .register f => { m with cfg := f m.cfg, dirty := true }
   | .modelsChanged f => { m with cfg := { m.cfg with models := f m.cfg.models } }
   | .read => m.read wl
+  | .observe => m
+  | .restore => m
 
 def MM.run (wl : WL) (m : MM) (ops : List Op) : MM := ops.foldl (MM.step wl) m
 
